@@ -50,7 +50,12 @@ type recorder struct {
 	// powerLoss: an on-disk state machine is durable only up to its last Sync
 	synced map[uint64]*disk
 	syncs  int
+	// shard2: this recorder belongs to the second shard of the hosts; its commands
+	// carry shard2Tag in their id, the commands of the first shard never do
+	shard2 bool
 }
+
+const shard2Tag = uint64(1) << 62
 
 // disk is the persistent store of one replica's on-disk state machine; it
 // survives the NodeHost (a restarted replica opens it again).
@@ -147,6 +152,11 @@ func (s *kvSM) Update(e sm.Entry) (sm.Result, error) {
 		return sm.Result{}, nil
 	}
 	id := binary.BigEndian.Uint64(e.Cmd)
+	if (id&shard2Tag != 0) != s.rec.shard2 {
+		s.rec.mu.Lock()
+		s.rec.bad = append(s.rec.bad, fmt.Sprintf("replica %d was given a command of the other shard at index %d", s.replica, e.Index))
+		s.rec.mu.Unlock()
+	}
 	k := binary.BigEndian.Uint64(e.Cmd[8:])
 	v := binary.BigEndian.Uint64(e.Cmd[16:])
 	cid := binary.BigEndian.Uint64(e.Cmd[24:])
